@@ -268,3 +268,122 @@ func (c *Ctx) checkFlushStates() {
 	}
 	c.note("flush_sites_in_comment_skippers", n)
 }
+
+// C13-GETWAIT: a token is taken only after it has been seen.
+//
+// GetNextToken hands back the end marker when the queue is dry. Inside an
+// open construct the rest of the text may simply not have arrived: a routine
+// that takes "the closing paren" without having looked (and waited) first
+// reads the end marker as a wrong token and reports a syntax error, where the
+// whole text parses. Every direct call of Lexer.GetNextToken in a method of
+// the parser must have, as the nearest call that dominates it and touches the
+// token stream, a look-ahead (PeekNextToken / ParserPeekNextToken) -- not a
+// routine that consumes tokens (another GetNextToken, or anything from which
+// GetNextToken is reachable, such as the expression parser): after those the
+// queue may be empty again.
+func (c *Ctx) checkTakeAfterLook() {
+	parserT := c.named("Parser")
+	getTok := c.mustFn("C13-GETWAIT", "Lexer.GetNextToken")
+	peek := c.fn("Lexer.PeekNextToken")
+	ppeek := c.fn("Parser.ParserPeekNextToken")
+	if parserT == nil || getTok == nil || peek == nil {
+		return
+	}
+	typF := c.field("Token", "typ")
+	var tokenEnd int64 = -1
+	if k, ok := c.Zygo.Types.Scope().Lookup("TokenEnd").(*types.Const); ok {
+		tokenEnd, _ = constInt64(k)
+	}
+	consumes := map[*ssa.Function]bool{}
+	consumer := func(g *ssa.Function) bool {
+		if g == nil || fnPkgPath(g) != zygoPath {
+			return false
+		}
+		if g == getTok {
+			return true
+		}
+		if g == peek || g == ppeek {
+			return false
+		}
+		if v, ok := consumes[g]; ok {
+			return v
+		}
+		consumes[g] = staticReach(g)[getTok]
+		return consumes[g]
+	}
+	// a helper that only looks: reaches a peek, not GetNextToken
+	looks := func(g *ssa.Function) bool {
+		if g == nil {
+			return false
+		}
+		if g == peek || g == ppeek {
+			return true
+		}
+		if fnPkgPath(g) != zygoPath || consumer(g) {
+			return false
+		}
+		r := staticReach(g)
+		return r[peek] || (ppeek != nil && r[ppeek])
+	}
+	n := 0
+	for _, f := range c.zygoFuncs() {
+		if !isMethodOf(topFn(f), parserT) {
+			continue
+		}
+		for _, site := range callsOf(f, getTok) {
+			n++
+			// what the token is compared with afterwards: a take that is itself tested for the end marker
+			// is a look (the expression parser's first token; its callers wait)
+			if call, isCall := site.(*ssa.Call); isCall && typF != nil && tokenEnd >= 0 && tokenComparedWith(call, typF, tokenEnd) {
+				c.ok("C13-GETWAIT", fnName(f), "token taken after it was looked at", site.Pos(), "the token taken is itself tested for the end marker")
+				continue
+			}
+			// going backwards from the take along every path: the first call that touches the token stream
+			kinds := map[string]string{}
+			seen := map[*ssa.BasicBlock]bool{}
+			var back func(b *ssa.BasicBlock, from int)
+			back = func(b *ssa.BasicBlock, from int) {
+				for j := from - 1; j >= 0; j-- {
+					ci, ok := b.Instrs[j].(ssa.CallInstruction)
+					if !ok {
+						continue
+					}
+					g := ci.Common().StaticCallee()
+					if looks(g) {
+						kinds["look"] = calleeName(ci.Common())
+						return
+					}
+					if consumer(g) {
+						kinds["consume"] = calleeName(ci.Common())
+						return
+					}
+				}
+				if len(b.Preds) == 0 {
+					kinds["none"] = "the entry of the routine"
+					return
+				}
+				for _, p := range b.Preds {
+					if seen[p] {
+						continue
+					}
+					seen[p] = true
+					back(p, len(p.Instrs))
+				}
+			}
+			back(site.Block(), instrIndex(site.(ssa.Instruction)))
+			_, consumed := kinds["consume"]
+			_, none := kinds["none"]
+			ok := !consumed && !none && kinds["look"] != ""
+			why := "on some path nothing that looks at the token stream comes before it"
+			if consumed {
+				why = "on some path the last call before it that touches the token stream is " + kinds["consume"] + ", which consumes tokens: the queue may be dry again"
+			}
+			c.check(ok, "C13-GETWAIT", fnName(f), "token taken after it was looked at", site.Pos(),
+				"on every path the last call before it that touches the token stream is a look-ahead",
+				"a token is taken from the lexer without having been looked at first ("+why+"): when the text arrives in pieces and a piece ends just before this token, the end marker is taken for a wrong token (\"extra value in dotted pair\") instead of a request for more input")
+		}
+	}
+	if n < 5 {
+		c.undecided("C13-GETWAIT", "Parser", "direct takes of a token", token.NoPos, fmt.Sprintf("only %d direct calls of GetNextToken in the parser found", n))
+	}
+}
